@@ -1,4 +1,5 @@
 """Canonical forms, documented normalisation, and a JSON codec for values."""
+import array
 import calendar
 import datetime
 import decimal
@@ -117,6 +118,13 @@ def tojson(v):
         return {'$t': [tojson(x) for x in v]}
     if t is dict:
         return {'$F': [[tojson(k), tojson(x)] for k, x in v.items()]}
+    if t is memoryview:
+        base = v.obj
+        return {'$buf': 'memoryview', 'format': v.format,
+                'of': type(base).__name__, 'hex': v.tobytes().hex()}
+    if t is array.array:
+        return {'$buf': 'array', 'format': v.typecode,
+                'hex': v.tobytes().hex()}
     return {'$repr': repr(v)}
 
 
@@ -125,6 +133,15 @@ def fromjson(j):
         return j
     if isinstance(j, list):
         return [fromjson(x) for x in j]
+    if '$buf' in j:
+        raw = bytes.fromhex(j['hex'])
+        if j['$buf'] == 'array':
+            return array.array(j['format'], raw)
+        if j.get('of') == 'array':
+            return memoryview(array.array(j['format'], raw))
+        base = bytearray(raw) if j.get('of') == 'bytearray' else raw
+        return memoryview(base).cast(j['format']) \
+            if j['format'] != 'B' else memoryview(base)
     if '$f' in j:
         return float(j['$f'])
     if '$D' in j:
@@ -145,6 +162,9 @@ def fromjson(j):
 
 
 def short(v, limit=160):
-    """Short printable form for messages."""
-    s = repr(v)
+    """Short printable form for messages (free of object addresses)."""
+    if isinstance(v, memoryview):
+        s = 'memoryview(format=%r, %r)' % (v.format, v.tobytes())
+    else:
+        s = repr(v)
     return s if len(s) <= limit else s[:limit - 12] + '...(%d)' % len(s)
